@@ -188,7 +188,9 @@ func helpers() string {
 		"\n\treturn \"&\" + w + \"=\" + fS(v, *x)\n"
 	fn("fPS", "(v *env, x *S) string", fps)
 	fn("fLL", "(v *env, x [][]int) string", "\tif x == nil {\n\t\treturn \"nil\"\n\t}\n\tr := fmt.Sprintf(\"%d/%d[\", len(x), cap(x))\n\tfor n, y := range x {\n\t\tif n > 0 {\n\t\t\tr += \" \"\n\t\t}\n\t\tr += fL(v, y)\n\t}\n\treturn r + \"]\"\n")
-	fn("fE", "(v *env, x interface{}) string", "\tswitch y := x.(type) {\n\tcase nil:\n\t\treturn \"nil\"\n\tcase [2]int:\n\t\treturn fmt.Sprintf(\"A%v\", y)\n\tcase S:\n\t\treturn \"S\" + fS(v, y)\n\tcase []int:\n\t\treturn \"L\" + fL(v, y)\n\t}\n\treturn \"?\"\n")
+	// (comma-ok assertions rather than a type switch: yaegi's type switch on an interface{} holding a
+	// struct with methods takes the default clause -- known finding F-C05-3, not this property's subject)
+	fn("fE", "(v *env, x interface{}) string", "\tif x == nil {\n\t\treturn \"nil\"\n\t}\n\tif y, ok := x.([2]int); ok {\n\t\treturn fmt.Sprintf(\"A%v\", y)\n\t}\n\tif y, ok := x.(S); ok {\n\t\treturn \"S\" + fS(v, y)\n\t}\n\tif y, ok := x.([]int); ok {\n\t\treturn \"L\" + fL(v, y)\n\t}\n\treturn \"?\"\n")
 	al := "\tr := \"\"\n"
 	for n, pr := range aliasPairs {
 		guard := ""
@@ -298,6 +300,11 @@ func stmt(o op) string {
 		return fmt.Sprintf("%s = %s\ndump(v)\n", D, S)
 	case "SetField", "SetElem":
 		return fmt.Sprintf("%s = %d\ndump(v)\n", D, o.V)
+	case "SetLit":
+		if o.X == "A" {
+			return fmt.Sprintf("%s = [2]int{%d, %d}\ndump(v)\n", D, o.V, o.V+1)
+		}
+		return fmt.Sprintf("%s = S{N: %d, A: [2]int{%d, 0}}\ndump(v)\n", D, o.V, o.V)
 	case "SetMapEntry":
 		switch o.X {
 		case "int":
@@ -400,10 +407,17 @@ func stmt(o op) string {
 }
 
 // history renders one history as the body of a function.
-func history(init string, ops []op) string {
+func history(init string, ops []op, scope string) string {
 	var body strings.Builder
 	if init == "rich" {
 		body.WriteString(richPrologue)
+	}
+	// the env is built after the prologue (see F-C04-1: assigning a struct literal to a
+	// variable detaches the pointers taken before)
+	if scope == "global" {
+		body.WriteString("v = " + envLit() + "\n")
+	} else {
+		body.WriteString("v := " + envLit() + "\n")
 	}
 	body.WriteString("dump(v)\n")
 	for n, o := range ops {
@@ -430,7 +444,7 @@ func program(cases []*kase) string {
 	}
 	if anyGlobal {
 		b.WriteString("\n" + poolDecl(""))
-		b.WriteString("\nvar v = " + envLit() + "\n")
+		b.WriteString("\nvar v *env\n")
 		b.WriteString(resetFunc())
 	}
 	for n, k := range cases {
@@ -439,9 +453,8 @@ func program(cases []*kase) string {
 			b.WriteString("\treset()\n")
 		} else {
 			b.WriteString(poolDecl("\t"))
-			b.WriteString("\tv := " + envLit() + "\n")
 		}
-		b.WriteString(indent(history(k.B.Init, k.B.Ops), "\t"))
+		b.WriteString(indent(history(k.B.Init, k.B.Ops, k.Scope), "\t"))
 		b.WriteString("}\n")
 	}
 	b.WriteString("\nfunc run(n int, h func()) {\n\tfmt.Printf(\"#%d\\n\", n)\n\tdefer func() {\n\t\tif r := recover(); r != nil {\n\t\t\tfmt.Println(\"PANIC\", r)\n\t\t}\n\t}()\n\th()\n}\n")
